@@ -403,6 +403,70 @@ func ruleNoEarlyExit(c *Ctx, rule string, fnNames ...string) {
 	}
 }
 
+// ruleNoBreak: the loops of a function are never left through `break` (an edge from a body block to the block the
+// header exits to). Returns and `continue <outer>` are fine: the function searches, it does not collect.
+func ruleNoBreak(c *Ctx, rule, name, what string) {
+	L := c.L
+	fn := genFn(c, rule, name)
+	if fn == nil {
+		return
+	}
+	nLoops := 0
+	var breaks []string
+	for _, h := range fn.Blocks {
+		if !strings.HasPrefix(h.Comment, "rangeindex.loop") && !strings.HasPrefix(h.Comment, "rangeiter.loop") && !strings.HasPrefix(h.Comment, "for.loop") {
+			continue
+		}
+		in := map[*ssa.BasicBlock]bool{}
+		var work []*ssa.BasicBlock
+		for _, p := range h.Preds {
+			if h.Dominates(p) && p != h {
+				work = append(work, p)
+			}
+		}
+		for len(work) > 0 {
+			b := work[len(work)-1]
+			work = work[:len(work)-1]
+			if in[b] || b == h {
+				continue
+			}
+			in[b] = true
+			work = append(work, b.Preds...)
+		}
+		if len(in) == 0 {
+			// a loop header without a back edge: the body always leaves after its first iteration
+			breaks = append(breaks, fmt.Sprintf("loop at block %d never iterates twice (unconditional break/return at the end of its body)", h.Index))
+			nLoops++
+			continue
+		}
+		nLoops++
+		for _, e := range h.Succs {
+			if in[e] {
+				continue
+			}
+			for b := range in {
+				for _, s := range b.Succs {
+					if s == e {
+						breaks = append(breaks, fmt.Sprintf("block %d -> %d (%s)", b.Index, e.Index, e.Comment))
+					}
+				}
+			}
+		}
+	}
+	// a loop whose body always leaves loses its header block in go/ssa (block fusion): its body block then has a
+	// non-header immediate dominator
+	for _, b := range fn.Blocks {
+		if strings.HasSuffix(b.Comment, ".body") && (strings.HasPrefix(b.Comment, "rangeindex") || strings.HasPrefix(b.Comment, "rangeiter") || strings.HasPrefix(b.Comment, "for")) {
+			d := b.Idom()
+			if d == nil || !strings.HasSuffix(d.Comment, ".loop") {
+				breaks = append(breaks, fmt.Sprintf("loop body block %d never iterates twice (unconditional break/return at the end of its body)", b.Index))
+			}
+		}
+	}
+	sort.Strings(breaks)
+	c.check(len(breaks) == 0 && nLoops > 0, rule, fnName(fn)+":scan-without-break", L.pos(fn.Pos()), what, fmt.Sprintf("%d loops; break edges: %v", nLoops, breaks))
+}
+
 // appendOrder: in fn, the appends to one statement list in program order with a label for what they add.
 type appendSite struct {
 	call  *ssa.Call
